@@ -249,6 +249,7 @@ def init (cfg : Cfg) : St :=
     write_<name>(value):  write_<idx>(min(vdict, key=lambda i: abs(vdict[i] - value))); return getattr(mobj, name)
     __get__:              valuedict[parameters[idx_name].value]
     callback on <idx>:    announceUpdate(name, getattr(modobj, name))
+    callback on <name>:   (repaired code) if value != valuedict[<idx>]: setattr(modobj, <idx>, min(vdict, key=…))
 -/
 
 structure FCfg where
